@@ -36,8 +36,8 @@ from ..repo import child_env
 from ..tlaval import FD, iter_dump, parse_simulate_file
 from ..tlc import MachineryError, run_tlc
 
-PARTS_QUICK = [["wideN"], ["deep2"], ["pairs"], ["deep1", "deep3"], ["wideO", "symbols", "triples"]]
-PARTS_THOROUGH = [["wideN"], ["pairs"], ["deep2"], ["deep1"], ["deep3"], ["wideO"], ["triples"], ["symbols"]]
+PARTS_QUICK = [["wideN"], ["deep2"], ["pairs"], ["deep1", "deep3"], ["wideO", "symbols", "triples", "blanks"]]
+PARTS_THOROUGH = [["wideN"], ["pairs"], ["deep2"], ["deep1"], ["deep3"], ["wideO"], ["triples"], ["symbols", "blanks"]]
 CLAUSE_WHAT = {
     "Total": "conversion raised an exception (not total)",
     "Shape": "output does not match the documented form: a run is lost / duplicated / out of order, a "
